@@ -10,7 +10,7 @@ from vlib import Infra, Violation, log
 MANIFEST = {
     "engine": "tlc+go-harness", "design_ref": "DESIGN.md section 4 (C03)",
     "technique": "TLA+ exact-rational curve walker (CLSwapIdeal.tla, BigNum) model-checked for the curve laws; every recorded swap of the real pool validated against it by TLC",
-    "text": "CLSwapIdeal.tla walks the piecewise constant-liquidity curve through the logged initialised ticks with the logged spread factor in exact rationals. TLC checks the walker itself exhaustively on a tiny grid (split = whole, exact-out inverts exact-in, round trip <= input with equality iff no fee, monotone). For every swap recorded from a real pool (all spacings / spread factors incl. 0, prices 1e-11..1e11, 1 unit .. beyond draining, both directions and kinds, crossing many ticks, hitting the price limit) TLC requires: paid <= Ideal(charged).out and >= floor(Ideal(charged-k).out)-k (exact-out symmetric) with k = 2 units per bucket touched; by price, with no dust at all: for the move from the logged pre-swap to the logged post-swap sqrt price the curve prescribes an input (fee included) and an output - charged >= that input, paid <= that output; executed result = estimate on the same state, estimate and failed swaps leave the whole projected state unchanged, there-and-back <= input.",
+    "text": "CLSwapIdeal.tla walks the piecewise constant-liquidity curve through the logged initialised ticks with the logged spread factor in exact rationals. TLC checks the walker itself exhaustively on a tiny grid (split = whole, exact-out inverts exact-in, round trip <= input with equality iff no fee, monotone). For every swap recorded from a real pool (all spacings / default spread factors incl. 0 and, every fifth history, governance-authorised ones of 0.5 .. 0.95, prices 1e-11..1e11, 1 unit .. beyond draining, both directions and kinds, crossing many ticks, hitting the price limit) TLC requires: paid <= Ideal(charged).out and >= floor(Ideal(charged-k).out)-k (exact-out symmetric) with k = 2 units per bucket touched (counted in units of 1 + floor(f/(1-f)): one unit of rounding in the curve amount costs 1/(1-f) units of charge); by price, with no dust at all: for the move from the logged pre-swap to the logged post-swap sqrt price the curve prescribes an input (fee included) and an output - charged >= that input, paid <= that output; executed result = estimate on the same state, estimate and failed swaps leave the whole projected state unchanged, there-and-back <= input.",
     "note": "Trusted: TLC, BigNum override, harness projection; tick sqrt prices are taken from the implementation (C14). The dust bound k is calibrated: Dust=1 passes the recorded histories, Dust=0 fails; registered value 2.",
 }
 BUILD = clc.BUILD
